@@ -60,6 +60,8 @@ impl Registers {
 
   pub fn get_consumed_cycles(&mut self) -> usize {
     let cycles = self.cycles;
+    #[cfg(feature = "verif")]
+    crate::verif::event(crate::verif::EV_CONSUME, cycles, 0);
     self.cycles = 0;
     cycles as usize
   }
